@@ -915,7 +915,7 @@ def run_ins_real(ctx, cfg, tmp):
     c = dict(kind="ins-run", **cfg)
     with FakeFlows(dims, True, None):
         s = ImportanceNestedSampler(
-            model, nlive=cfg["nlive"], output=out, seed=seed, plot=False, checkpointing=True, checkpoint_on_iteration=True,
+            model, nlive=cfg["nlive"], output=out, seed=seed, plot=False, checkpointing=cfg.get("checkpointing", True), checkpoint_on_iteration=True,
             checkpoint_interval=1, min_samples=20, min_remove=1, reparameterisation="logit", resume_file="ckpt.pkl",
             stopping_criterion=cfg["criterion"], tolerance=cfg["tol"], check_criteria=cfg["check"],
             min_iteration=cfg["min"], max_iteration=cfg["cap"], draw_iid_live=cfg.get("iid", True))
@@ -1100,6 +1100,9 @@ def ins_run_cfgs(ctx, n):
         dict(criterion=["evidence_error", "ratio_all"], tol=[1.09, -1.0], check="any", min=2, cap=8),
         # an un-normalised likelihood (log Z near -1000 / +900: exp() of it under/overflows in float64): the error-based
         # criteria must still be their definitions (seeded change C15-d: Z_hat exponentiated in float64)
+        # periodic checkpointing switched off ("If false the sampler is still saved at the end of sampling"): resuming from
+        # the final checkpoint must still return the finished run (seeded change C15-eB)
+        dict(criterion="log_dZ", tol=0.1, check="any", min=None, cap=6, checkpointing=False),
         dict(criterion="Z_err", tol=1.05, check="any", min=None, cap=6, offset=-1000.0),
         dict(criterion=["fractional_error", "ess"], tol=[0.05, 300.0], check="any", min=None, cap=6, offset=900.0),
     ]
